@@ -66,9 +66,15 @@ class SrcGen:
             if k < 0.45:
                 ps.append(("T", " "))
                 ps.append(("E", self.iexpr(scope)))
-            elif k < 0.6:
+            elif k < 0.55:
                 ps.append(("T", " "))
                 ps.append(("E", r.choice(INTS) + r.choice([":3", ":03", ":>4", ":<3", ":d"])))
+            elif k < 0.6:
+                # colons that belong to the expression: slices, subscripts with a spec, a string literal
+                ps.append(("T", " "))
+                ps.append(("E", r.choice(["xs[0:1]", "xs[1:]", "d['k']:>4", "xs[0:2][0]:03", "'a:b'", "len(xs[:1]):3",
+                                          "a if a == b else c", "(a if flag else b):>3"])))
+                self.tag("colon-in-expression")
             elif k < 0.78 and allow_cond:
                 ps.append(("T", " "))
                 tr = r.choice([[("T", "yes")], [("T", "big "), ("E", "a")], []])
@@ -495,7 +501,7 @@ def run(tier: str, seed: int) -> int:
                        "2-3 with choices and jumps inside; @render/@input/@hook; @join sections with choice blocks), printed with 4-space "
                        "block indentation.  non-trivial = the story has a block, a join section or an inline conditional; distinct by sub-seed")
     chk.notes["input_distribution"] = stats
-    chk.assumptions = ["expressions avoid ':' inside brackets and '^' (documented positions only); ", "generated code stays inside the mini-Python of Lang/PyMini.v"]
+    chk.assumptions = ["expressions avoid '^' (tags: documented position is the end of a line)", "generated code stays inside the mini-Python of Lang/PyMini.v"]
     return chk.finish(props, C.BASE_TRUST + ["Story/Source.v compile_ref: the specification of the compiler on source ASTs (tied to the real "
                                              "compiler by this run); the .bard printer of harness/c01.py"],
                       "make -C /verif/coq && coqc -Q /verif/coq Bardic /verif/coq/Props/C01.v")
